@@ -38,7 +38,7 @@ LEVEL_NOTE = ("Trusted: the baton scheduler, model/linz.py, the sequential "
               "cache model below.  Pre-emption inside a single bytecode line "
               "or inside C code (dict operations, pow) is not explored; "
               "CPython's GIL makes those atomic.")
-BUDGET = {"quick": 60, "thorough": 1200}
+BUDGET = {"quick": 300, "thorough": 1200}
 CHUNK = 8
 PROBES = ["rsa", "cache", "verifierdb", "cache_seq", "lock_contended",
           "policy_random", "policy_pct", "policy_rr", "expired", "evicted",
